@@ -6,6 +6,8 @@ mod craft;
 mod e1;
 mod fd;
 mod hostile;
+mod kvmodel;
+mod listeners;
 mod pairs;
 mod sim;
 mod wire;
@@ -37,6 +39,8 @@ fn main() {
             }
         }
         "C10" | "C11" => finish(fd::check(&args, &args.prop)),
+        "C06" => finish(kvmodel::check(&args)),
+        "C15" => finish(listeners::check(&args)),
         "C09" => finish(hostile::check(&args)),
         "C07" => finish(wire::check_c07(&args)),
         "C08" => finish(wire::check_c08(&args)),
